@@ -36,6 +36,7 @@ func init() {
 }
 
 func runC03(c *Ctx) {
+	c03Extras3(c)
 	c.sigTables()
 	c.checkSigFromKey()
 	c.rsaVerifiers()
